@@ -664,6 +664,8 @@ func checkC09(c *Ctx) {
 	ruleOverwrittenVerdict(c, "C09.j", "imapserver", "imapserver/imapmemserver")
 	c.rule("C09.k", "the saved search result is replaced whenever SAVE is requested, and only after the criteria were resolved against the previous one", 2)
 	ruleSearchResDiscipline(c, "C09.k")
+	c.rule("C09.l", "an options struct the backend builds itself to re-insert a message sets every field the insert path reads", 1)
+	ruleCopySnapshotComplete(c, "C09.l")
 }
 
 // ruleNamespaceKeys: C09.e. Every insertion into User.mailboxes uses, as
